@@ -12,6 +12,7 @@ Record case05 := {
   k_chain : list (list rawlog);      (* block number = position; every log of the block, in log order *)
   k_lp0 : N;                         (* processor.GetLastProcessedBlock at start; download starts at lp0+1 *)
   k_ticks : list tick;               (* answers of the node to the block-tag header queries, in call order *)
+  k_calls : list cres;               (* outcomes of the numbered RPC calls (eth_getLogs, header by number), in call order *)
   (* observations of the real code *)
   o_chan : list dblock;              (* EVMBlocks the real Download put on downloadedCh, in order *)
   o_proc : list (N * list ev);       (* successful ProcessBlock calls made by the real driver, in order *)
@@ -37,13 +38,13 @@ Definition dblock_eqb (a b : dblock) : bool :=
 (* ---- model == implementation ? ---- *)
 Definition corr (c : case05) : bool :=
   let ch := chain_of_list (k_chain c) in
-  let '(s, out, d) := sync_run (k_cfg c) ch (k_lp0 c) (k_ticks c) in
+  let '(s, out, d) := sync_run (k_cfg c) ch (k_lp0 c) (k_calls c) (k_ticks c) in
   o_done c &&
   list_eqb dblock_eqb (o_chan c) out &&
   list_eqb blk_eqb (o_proc c) (d_stored d) &&
   list_eqb N.eqb (o_tracked c) (d_tracked d) &&
   N.eqb (o_lp c) (d_last d) &&
-  list_eqb pair_eqb (o_queries c) (dl_queries (k_cfg c) ch (dl_init (sync_from (k_lp0 c))) (k_ticks c)).
+  list_eqb pair_eqb (o_queries c) (dl_queries (k_cfg c) ch (dl_init (sync_from (k_lp0 c)) (k_calls c)) (k_ticks c)).
 
 (* ---- the property on what the implementation did ---- *)
 Fixpoint increasing (prev : option N) (l : list N) : bool :=
@@ -66,12 +67,19 @@ Definition check_seq (cfg : config) (ch : chain) (nblocks : N) (from0 marker : N
 Definition tips_okb (from0 : N) (ticks : list tick) : bool :=
   forallb (fun t => t_err t || (t_tip t =? 0) || (from0 <=? t_tip t + 1)) ticks.
 
+(* hypothesis of the theorems on the numbered calls: none fails with context.Canceled while the downloader is alive and
+   the node answers a mismatching header hash at most MaxRetryCountBlockHashMismatch times (streams "cancel" and
+   "giveup" are outside: reported, not judged) *)
+Definition is_canceled (r : cres) : bool := match r with RCanceled => true | _ => false end.
+Definition calls_okb (c : list cres) : bool :=
+  negb (existsb is_canceled c) && Nat.leb (mismatches c) max_retry_hash_mismatch.
+
 Definition spec (c : case05) : bool :=
   let cfg := k_cfg c in
   let ch := chain_of_list (k_chain c) in
   let from0 := sync_from (k_lp0 c) in
   let n := N.of_nat (length (k_chain c)) in
-  if tips_okb from0 (k_ticks c) then
+  if tips_okb from0 (k_ticks c) && calls_okb (k_calls c) then
     o_done c &&
     (* the channel: the marker is the number of the last block sent *)
     check_seq cfg ch n from0 (last (map b_num (o_chan c)) (k_lp0 c)) (map blk (o_chan c)) &&
